@@ -74,6 +74,7 @@ type Engine struct {
 	inlineDepthLimit int
 	nocheck   bool
 	ghostDepth int
+	caseCombo []int
 	astPkgs   map[string][]*ast.File
 	errGlobals []*Term
 }
@@ -966,6 +967,22 @@ func (e *Engine) copyInto(fr *Frame, st *State, ref, doff *Term, src func(k *Ter
 		e.setRegion(st, SBV8, ref, arr)
 		return
 	}
+	if ub := e.smallUpperBound(n); ub > 0 {
+		// symbolic length with a small syntactic upper bound: guarded stores, no quantifier.
+		// All source bytes are read before any store (memmove semantics).
+		vals := make([]*Term, ub)
+		for i := int64(0); i < ub; i++ {
+			vals[i] = src(tb.BV(i, 64))
+		}
+		arr := old
+		for i := int64(0); i < ub; i++ {
+			k := tb.BV(i, 64)
+			idx := tb.BVBin("bvadd", doff, k)
+			arr = tb.Store(arr, idx, tb.Ite(tb.BVCmp("bvslt", k, n), vals[i], tb.Select(arr, idx)))
+		}
+		e.setRegion(st, SBV8, ref, arr)
+		return
+	}
 	na := tb.Fresh("cp", SBytes)
 	k := tb.BoundVar("k", SBV64)
 	rel := tb.BVBin("bvsub", k, doff)
@@ -1472,6 +1489,11 @@ func (e *Engine) enterLoop(fr *Frame, st *State, h *ssa.BasicBlock, bo *blockOrd
 		c := cellByName[n]
 		st.cells[c] = tb.Fresh("L"+fmt.Sprint(ord)+"_"+c.name, e.sortOf(c.typ))
 		e.assumeWF(fr, st, st.cells[c], c.typ)
+		if c.name == "rangeindex" && st.cells[c].Sort == SBV64 {
+			// the hidden index of a range loop starts at -1 and is only ever incremented by one
+			// while it is below the (non-negative, < 2^48) length: it never goes below -1
+			e.addFact(st, tb.And(tb.BVCmp("bvsge", st.cells[c], tb.BV(-1, 64)), tb.BVCmp("bvsle", st.cells[c], tb.BV(1<<48, 64))))
+		}
 	}
 	var targets []*havocTarget
 	if spec.HasAssigns {
@@ -1495,6 +1517,7 @@ func (e *Engine) enterLoop(fr *Frame, st *State, h *ssa.BasicBlock, bo *blockOrd
 	for _, cl := range spec.Invariants {
 		g := e.evalClause(fr, st, fr.entry, cl, nil)
 		e.addFactQ(st, g)
+		e.propagateEqualities(st, g)
 	}
 	lr := &loopRec{head: st.clone(), ord: ord, spec: spec, targets: targets}
 	if spec.Decreases != nil {
@@ -1846,7 +1869,7 @@ func (e *Engine) syntacticFrame(cur, base *Term, targets []*havocTarget, heap st
 		if tb.isNewRef(ref) {
 			return tb.True()
 		}
-		if !tb.OldRefs[ref] {
+		if !tb.IsOldRef(ref) {
 			alts = append(alts, tb.IntCmp(">=", tb.RootID(ref), clock0))
 		}
 		for _, t := range targets {
@@ -1910,6 +1933,9 @@ func (e *Engine) syntacticFrame(cur, base *Term, targets []*havocTarget, heap st
 			return tb.And(r, allowedRange(ref, rf.lo, rf.hi)), true
 		}
 		// an unrelated array: only fine if the whole region may be written
+		if os.Getenv("GOVC_DEBUG") != "" {
+			fmt.Fprintf(os.Stderr, "FRAME-UNRELATED heap=%s ref=%s arr=%s base=%s\n", heap, tb.Show(ref), tb.Show(arr), tb.Show(basearr))
+		}
 		return allowedRef(ref), true
 	}
 	// the chain of base: terms reachable through store bases
@@ -1990,3 +2016,142 @@ func (e *Engine) appendObl(o *Obligation) []*Obligation {
 
 // isBoxRef: placeholder for "reference of a boxed value" (always allowed).
 func (e *Engine) isBoxRef(r *Term) *Term { return e.tb.True() }
+
+
+// smallUpperBound finds a syntactic upper bound (<= 32) of a length term built from literals, ite
+// (min) and known small quantities; 0 if none.
+func (e *Engine) smallUpperBound(n *Term) int64 {
+	switch n.Op {
+	case "bvlit":
+		if n.Val.IsInt64() && n.Val.Int64() >= 0 && n.Val.Int64() <= 32 {
+			return n.Val.Int64()
+		}
+		return 0
+	case "ite":
+		// min(a, b) is ite(a < b, a, b): bounded if either branch is bounded and the condition is the comparison
+		c := n.Args[0]
+		a, b := n.Args[1], n.Args[2]
+		ua, ub := e.smallUpperBound(a), e.smallUpperBound(b)
+		if c.Op == "bvslt" && c.Args[0] == a && c.Args[1] == b {
+			if ua > 0 && (ub == 0 || ua < ub) {
+				return ua
+			}
+			if ub > 0 {
+				return ub
+			}
+			if a.Op == "bvlit" || b.Op == "bvlit" {
+				return 0
+			}
+		}
+		if ua > 0 && ub > 0 {
+			if ua > ub {
+				return ua
+			}
+			return ub
+		}
+		if (a.Op == "bvlit" && a.Val.Sign() == 0 && ub > 0) {
+			return ub
+		}
+		if (b.Op == "bvlit" && b.Val.Sign() == 0 && ua > 0) {
+			return ua
+		}
+	case "bvsub":
+		// lit - x with x >= 0 unknown: not bounded syntactically
+	}
+	return 0
+}
+
+
+// propagateEqualities: top-level conjuncts of an assumed invariant of the form field-path(X) == t, where
+// X is the fresh value of a havocked cell and t does not mention X, are substituted into the cell so
+// that later terms are built from t directly (the equality itself stays among the facts).
+func (e *Engine) propagateEqualities(st *State, g *Term) {
+	tb := e.tb
+	var conj []*Term
+	var flat func(t *Term)
+	flat = func(t *Term) {
+		if t.Op == "and" {
+			for _, a := range t.Args {
+				flat(a)
+			}
+			return
+		}
+		conj = append(conj, t)
+	}
+	flat(g)
+	// map fresh cell constants to their cells
+	cellOf := map[*Term]*Cell{}
+	for c, v := range st.cells {
+		if v.Op == "const" && strings.HasPrefix(v.Name, "L") {
+			cellOf[v] = c
+		}
+	}
+	mentions := func(t, x *Term) bool {
+		found := false
+		vis := map[*Term]bool{}
+		var rec func(t *Term)
+		rec = func(t *Term) {
+			if found || vis[t] {
+				return
+			}
+			vis[t] = true
+			if t == x {
+				found = true
+				return
+			}
+			for _, a := range t.Args {
+				rec(a)
+			}
+		}
+		rec(t)
+		return found
+	}
+	for _, c := range conj {
+		var lhs, rhs *Term
+		switch {
+		case c.Op == "=":
+			lhs, rhs = c.Args[0], c.Args[1]
+		case c.Sort == SBool && (c.Op == "acc"):
+			lhs, rhs = c, tb.True()
+		case c.Op == "not" && c.Args[0].Op == "acc":
+			lhs, rhs = c.Args[0], tb.False()
+		default:
+			continue
+		}
+		for pass := 0; pass < 2; pass++ {
+			// lhs must be acc*(X)
+			var path []int
+			x := lhs
+			ok := true
+			for x.Op == "acc" {
+				d := tb.dtDecl[string(x.Args[0].Sort)]
+				idx := -1
+				for i, f := range d.Fields {
+					if f.Name == x.Name {
+						idx = i
+					}
+				}
+				if idx < 0 {
+					ok = false
+					break
+				}
+				path = append([]int{idx}, path...)
+				x = x.Args[0]
+			}
+			cell, isCell := cellOf[x]
+			if ok && isCell && len(path) > 0 && !mentions(rhs, x) {
+				cur := st.cells[cell]
+				st.cells[cell] = e.withPath(cur, path, rhs)
+				break
+			}
+			lhs, rhs = rhs, lhs
+		}
+	}
+}
+
+func (e *Engine) withPath(v *Term, path []int, nv *Term) *Term {
+	if len(path) == 0 {
+		return nv
+	}
+	return e.tb.With(v, path[0], e.withPath(e.tb.Acc(v, path[0]), path[1:], nv))
+}
